@@ -301,6 +301,14 @@ ADD11 = {
  "C15": " After round 10: CE-FORMAT-NORM (normalizeFormat evaluated for all documented and some undocumented -F names with and without -d: xz / lzma / auto only when decompressing, alone is lzma, others refused).",
  "C17": " After round 10: CE-BT-WRITE (binTree.Write(p) = WriteByte for every byte of p, evaluated on trees of 3 and 5 nodes).",
 }
+ADD12 = {
+ "C05": " Round 11: NEWAPI (exported methods of xz.Reader / lzma.Reader / lzma.Reader2 outside the known entry points - new io.WriterTo, io.ByteReader ... that io.Copy or bufio pick up by type assertion - are entry points of their own: EF-EOF, EF-IO and EF-DROP over what only they reach).",
+ "C09": " Round 11: NEWAPI (new exported methods of the public reader and writer types are judged as entry points: EF-EOF, EF-IO, EF-DROP).",
+ "C06": " Round 11: WR-LZMA-HDRDICT (c): no function of the classic writer's cone overwrites header.dictCap except through g(dictCap, size) that evaluates (CE, grid around 2^n and 3*2^(n-1)) to at least min(dictCap, size).",
+ "C07": " Round 11: WR-LZMA-HDRDICT (c): no function of the classic writer's cone overwrites header.dictCap except through g(dictCap, size) that evaluates (CE, grid around 2^n and 3*2^(n-1)) to at least min(dictCap, size); math/bits counted by the evaluator.",
+}
+for pid, text in ADD12.items():
+    ADD11[pid] = ADD11.get(pid, "") + text
 for pid, text in ADD11.items():
     ADD10[pid] = ADD10.get(pid, "") + text
 for pid, text in ADD10.items():
